@@ -92,6 +92,17 @@ func buildFields(rt reflect.Type, u byte, omitEmpty bool) (fa []*finfo) {
 	return
 }
 
+// skipNilEmbed wraps the value function of a field promoted from an embedded
+// pointer so the field is omitted when that pointer is nil.
+func skipNilEmbed(f valFunc) valFunc {
+	return func(fi *finfo, rv reflect.Value, addr uintptr) (any, reflect.Value, bool) {
+		if _, err := rv.FieldByIndexErr(fi.index); err != nil {
+			return nil, nilValue, true
+		}
+		return f(fi, rv, addr)
+	}
+}
+
 func buildTagFields(rt reflect.Type, nested, omitEmpty bool) (fa []*finfo) {
 	for i := rt.NumField() - 1; 0 <= i; i-- {
 		f := rt.Field(i)
@@ -107,6 +118,7 @@ func buildTagFields(rt reflect.Type, nested, omitEmpty bool) (fa []*finfo) {
 			if f.Type.Kind() == reflect.Ptr {
 				for _, fi := range buildTagFields(f.Type.Elem(), nested, omitEmpty) {
 					fi.index = append([]int{i}, fi.index...)
+					fi.ivalue = skipNilEmbed(fi.ivalue)
 					fi.value = fi.ivalue
 					fa = append(fa, fi)
 				}
@@ -160,6 +172,7 @@ func buildExactFields(rt reflect.Type, nested, omitEmpty bool) (fa []*finfo) {
 			if f.Type.Kind() == reflect.Ptr {
 				for _, fi := range buildExactFields(f.Type.Elem(), nested, omitEmpty) {
 					fi.index = append([]int{i}, fi.index...)
+					fi.ivalue = skipNilEmbed(fi.ivalue)
 					fi.value = fi.ivalue
 					fa = append(fa, fi)
 				}
@@ -190,6 +203,7 @@ func buildLowFields(rt reflect.Type, nested, omitEmpty bool) (fa []*finfo) {
 			if f.Type.Kind() == reflect.Ptr {
 				for _, fi := range buildLowFields(f.Type.Elem(), nested, omitEmpty) {
 					fi.index = append([]int{i}, fi.index...)
+					fi.ivalue = skipNilEmbed(fi.ivalue)
 					fi.value = fi.ivalue
 					fa = append(fa, fi)
 				}
